@@ -76,6 +76,15 @@ class HistoryFamily:
                 # a conjunction as the first side of a disjunction: the conjunction is asked for its false rows too
                 lf = lambda: next(c for c in (g.cond(0) for _ in range(50)) if not mentions_big(c))
                 guard = ['or', ['and', lf(), lf(), rng.choice(['fn', 'op'])], lf(), rng.choice(['fn', 'op'])]
+            if rng.random() < 0.15:
+                # a membership test against a CONSTANT container (the constant is the operand evaluated first, the attribute of the
+                # variable second): alone, or as the left operand of a conjunction / disjunction
+                f = gen_query.F[rng.choice('ab')]
+                vals = ['lit', [rng.choice([0, 1, 2, 3]) for _ in range(rng.randint(1, 3))]]
+                attr = ['map', ['f', f], ['var', 1]]
+                mem = ['in', attr, vals] if rng.random() < 0.5 else ['contains', vals, attr]
+                r_ = rng.random()
+                guard = mem if r_ < 0.5 or guard is None else ['and', mem, guard, 'fn'] if r_ < 0.8 else ['or', mem, guard, 'fn']
             pred = rng.random() < 0.5 or guard is None
             if rng.random() < (0.5 if big else 0.1):
                 guard, pred = None, False                                       # no condition at all: an(entity(x))
@@ -442,6 +451,12 @@ class C04(HistoryFamily):
             "evaluation and the final answer is neither empty nor everything")
     explanation = ("C04_history_independent / C04_content_invariant / C04_repeated_object are proved over the lazy-domain model for all "
                    "histories; C04_any_advance covers several variables; tie = every step of generated histories against the model")
+
+    def gen(self, rng, i, tier):
+        if rng.random() < 0.15:
+            # literal-free joins over three variables, abandoned after a few rows (the iterator closed or kept), then evaluated fully, twice
+            return join_history(self, rng, tier)
+        return HistoryFamily.gen(self, rng, i, tier)
 
 
 class C07(HistoryFamily):
